@@ -130,3 +130,25 @@ extern "C" void h_dollar_garbage()
     g_cri_garbage = 0;
     __CPROVER_assert(s < SEVERITY_USERMSG && a.Error().severity() < SEVERITY_USERMSG, "C03 characters between a `$` and the delimiter are reported (worse than a user message), OPTIONAL or not, strict or not");
 }
+
+/* C03: what the aggregate reader or the select reader reports for an attribute's value is the attribute's result and stays in the
+ * attribute's descriptor (the instance reader looks there): a wrong element, a missing required aggregate, a select value outside the list */
+extern "C" void h_sub_reader_errors()
+{
+    IN(int, in_kind); IN(int, in_sev); IN(int, in_garbage);
+    static STEPattribute a; static AttrDescriptor ad; static SDAI_LOGICAL lo; static long storage[64];
+    static const PrimitiveType kinds[] = { AGGREGATE_TYPE, ARRAY_TYPE, BAG_TYPE, SET_TYPE, LIST_TYPE, SELECT_TYPE };
+    __CPROVER_assume(in_kind >= 0 && in_kind < 6);
+    __CPROVER_assume(in_sev == SEVERITY_NULL || in_sev == SEVERITY_USERMSG || in_sev == SEVERITY_INCOMPLETE || in_sev == SEVERITY_WARNING || in_sev == SEVERITY_INPUT_ERROR);
+    g_base = kinds[in_kind]; g_opt_obj = &lo; lo.v = LFalse;
+    a._redefAttr = 0; a._derive = false; a.aDesc = &ad; if (in_kind < 5) a.ptr.a = (STEPaggregate *)storage; else a.ptr.sh = (SDAI_Select *)storage;
+    g_stream_arbitrary = 0; g_stream_script[0] = '('; g_stream_script[1] = ')'; g_stream_script[2] = ','; g_stream_len = 3;
+    istream in; in._m_state = 0; in._m_have = 0; in._m_consumed = 0;
+    g_sub_sev = (Severity)in_sev; g_aggr_calls = g_sel_calls = 0; g_cri_garbage = in_garbage != 0;
+    Severity s = a.STEPread(in, 0, 0, 0, false);
+    g_sub_sev = SEVERITY_NULL; g_cri_garbage = 0;
+    __CPROVER_assert((in_kind < 5 ? g_aggr_calls : g_sel_calls) == 1 && (in_kind < 5 ? g_aggr_err : g_sel_err) == &a.Error(), "the value is read once, with the attribute's own descriptor");
+    __CPROVER_assert((int)s <= in_sev && (int)a.Error().severity() <= in_sev, "C03 what the aggregate / select reader reports is the attribute's result and stays in its descriptor");
+    if (in_garbage && in_sev >= SEVERITY_WARNING) __CPROVER_assert(s <= SEVERITY_WARNING, "C03 garbage between the value and the delimiter is reported");
+    if (!in_garbage && in_sev == SEVERITY_NULL) __CPROVER_assert(s == SEVERITY_NULL, "a clean value reads clean");
+}
